@@ -45,14 +45,14 @@ def norm(v: Any, keep_parseinfo: bool = False) -> Any:
     return v
 
 
-def parse(model, text: str, **settings):
+def parse(model, text: str, _keep_parseinfo=None, **settings):
     """-> ('ok', normalised value) | ('fail', exception class name, pos)
           | ('exc', class name, message)   for non-TatSu exceptions"""
     from tatsu.exceptions import FailedParse, ParseException
     try:
         with contextlib.redirect_stderr(io.StringIO()):
             v = model.parse(text, **settings)
-        return ('ok', norm(v, settings.get('parseinfo', False)))
+        return ('ok', norm(v, settings.get('parseinfo', False) if _keep_parseinfo is None else _keep_parseinfo))
     except FailedParse as e:
         return ('fail', type(e).__name__, getattr(e, 'pos', None))
     except ParseException as e:
